@@ -7,8 +7,8 @@ from sim import Config, var, W, R, P, A, N, D, RW
 
 PROP = "C12"
 LEVEL = "exploration"
-RULE = ("1..4 TPDOs with generated mappings (1..8 objects of 1/2/3/4 bytes, <= 8 bytes) x (type 254/255/1..240, inhibit, event time) x "
-        "histories of value changes through CODictWr*/SDO/a received asynchronous RPDO mapped to the same objects, explicit triggers (PDO number, object), received SYNCs, ticks, NMT changes "
+RULE = ("1..4 TPDOs (1..6 on a build with CO_TPDO_N=6 / CO_RPDO_N=2) with generated mappings (1..8 objects of 1/2/3/4 bytes, <= 8 bytes) x (type 254/255/1..240, inhibit, event time) x "
+        "histories of value changes through CODictWr*/SDO/a received asynchronous RPDO mapped to the same objects, explicit triggers (PDO number, object; one frame in seven refused by the CAN driver), received SYNCs, ticks, NMT changes "
         "(OP->PREOP->OP round trips, STOP, reset communication), event-time writes, COB-ID invalidate/re-validate and complete re-mapping sequences (fewer / more objects) while OPERATIONAL, leaving OPERATIONAL / invalidating while the timer event of a TPDO is served but not yet processed; the "
         "(tick, identifier, dlc, data) TPDO emissions of every step are compared with a reference model in ticks, plus a systematic sweep of "
         "(inhibit, event, trigger offset) in {0..6}^3 x 10 ticks (every relative order and coincidence of trigger, inhibit end and event expiry); non-trivial = history with >= 1 deferred (inhibited) transmission, event "
@@ -16,7 +16,7 @@ RULE = ("1..4 TPDOs with generated mappings (1..8 objects of 1/2/3/4 bytes, <= 8
 ASSUMPTIONS = ["times are whole numbers of ticks (10 kHz timer: 100 us = 1 tick; 1 MHz timer: 100 ticks)", "first event-timer expiry after activation accepted in [E, E+CO_TPDO_N-1]",
                "RTR and transmission types 0, 241..253 are not generated", "synchronous TPDOs are not triggered by the application and map no asynchronous objects (the property does not say what such a trigger does)",
                "the inhibit time is only changed while the node is not OPERATIONAL"]
-VARIANTS = ["asan"]
+VARIANTS = ["asan", "asanp"]
 
 PREOP, OP, STOP = 2, 3, 4
 NT = 4
@@ -48,6 +48,7 @@ class TModel:
         self.out = []                                       # expected frames of the current step: (tick, id, data)
         self.stats = {"deferred": 0, "event": 0, "sync": 0, "frames": 0}
         self.sent_this_tick = {}
+        self.nt = NT                                        # CO_TPDO_N of the build
 
     def frame(self, tp):
         data = b""
@@ -63,7 +64,7 @@ class TModel:
             tp.I = tp.inhibit * self.inh_unit if tp.typ >= 254 else 0      # a synchronous TPDO goes out on every n-th SYNC, whatever 18xxh:3 says
             tp.E = tp.event * self.ev_unit if tp.typ >= 254 else 0
             if tp.E > 0:
-                tp.ev_window = (t + tp.E, t + tp.E + NT - 1)
+                tp.ev_window = (t + tp.E, t + tp.E + self.nt - 1)
 
     def enter_op(self, t):
         for tp in self.tps:
@@ -153,7 +154,7 @@ class TModel:
             t0 = t
 
 
-def gen_world(rng, sweep=None):
+def gen_world(rng, sweep=None, nt=NT, nr=4):
     nid = rng.choice([1, 2, 50])
     freq = 10000 if (sweep is not None or rng.random() < 0.7) else 1000000      # 1 MHz: inhibit / event times of 6.6 ms and more exceed 65535 ticks
     objs = {}
@@ -180,7 +181,8 @@ def gen_world(rng, sweep=None):
         cfg.add(S.Obj(0x2120, 0, RW | P, "usr", "U", 3, 0, 0, 0, v))
         pool.append((0x2120, 0, 3))
     tps = []
-    n = rng.randint(1, 4) if sweep is None else 1
+    n = rng.randint(1, nt) if sweep is None else 1
+    rbase, rstep = (0x200, 0x100) if nt <= 4 else (0x400, 0x40)        # more than four channels: identifiers in blocks of 40h, RPDOs above the TPDOs
     for num in range(n):
         maps, total = [], 0
         cand = pool[:]
@@ -209,7 +211,7 @@ def gen_world(rng, sweep=None):
             typ = typ0
             inh = rng.choice([0, 0, 1, 2, 3, 5, 10, 50] + ([700, 1000] if freq > 10000 else []))
             ev = rng.choice([0, 0, 1, 2, 5, 10] + ([70, 100] if freq > 10000 else []))        # ms -> 10 ticks each at 10 kHz
-        cob = 0x40000180 + 0x100 * num
+        cob = 0x40000180 + (0x100 if nt <= 4 else 0x40) * num
         if rng.random() < 0.1 and sweep is None:
             cob |= 0x80000000
         no_inh = sweep is None and rng.random() < 0.15      # a record without the optional inhibit entry: no inhibit time, everything else as stored
@@ -226,28 +228,31 @@ def gen_world(rng, sweep=None):
         for (idx, sub, w) in cand[:rng.randint(1, 3)]:
             if total + w <= 8:
                 rmap.append((idx, sub, 8 * w)); total += w
-        gen.add_rpdo(cfg, 0, 0x200, 255, [gen.maplink(*m) for m in rmap])
+        gen.add_rpdo(cfg, 0, rbase, 255, [gen.maplink(*m) for m in rmap])
     # RPDOs that map nothing (mostly synchronous) with the numbers of the TPDOs: switching them off and on concerns no TPDO
     cfg.rempty = []
     if sweep is None:
-        for num in range(4):
+        for num in range(nr):
             if (num > 0 or not rmap) and rng.random() < 0.6:
-                gen.add_rpdo(cfg, num, 0x200 + 0x100 * num, rng.choice([1, 1, 0, 240, 255]), [])
-                cfg.rempty.append([num, 0x200 + 0x100 * num + nid])
+                gen.add_rpdo(cfg, num, rbase + rstep * num, rng.choice([1, 1, 0, 240, 255]), [])
+                cfg.rempty.append([num, rbase + rstep * num + nid])
     cfg.finalize()
     cfg.scale = freq // 10000
     units = (cfg.scale, 10 * cfg.scale)
     cfg.rmap = rmap
+    cfg.rbase = rbase
+    cfg.nt = nt
     return cfg, nid, objs, tps, units
 
 
-def run_history(res, exe, rng, first, sweep=None):
-    cfg, nid, objs, tps, units = gen_world(rng, sweep)
+def run_history(res, exe, rng, first, sweep=None, nt=NT, nr=4):
+    cfg, nid, objs, tps, units = gen_world(rng, sweep, nt, nr)
     if sweep is not None:
         # event time in ticks is needed for the sweep: use a 1 kHz node where 1 ms = 1 tick and inhibit unit 100us is not exact -> keep 10 kHz, event in ms = 10 ticks
         pass
     sim = S.Sim(exe, cfg)
     m = TModel(nid, objs, tps, units)
+    m.nt = nt
     script = []
     ids = set(tp.cobid & 0x7FF for tp in tps)
 
@@ -310,7 +315,7 @@ def run_history(res, exe, rng, first, sweep=None):
                 elif x < 0.58:
                     op = ("sdowr", rng.choice([k_ for k_ in objs if objs[k_][0] in (1, 2, 4)]))
                 elif x < 0.66:
-                    op = ("trig", rng.randrange(NT)) if rng.random() < 0.85 else ("trigcb", rng.randrange(NT))
+                    op = ("trig", rng.randrange(cfg.nt)) if rng.random() < 0.85 else ("trigcb", rng.randrange(cfg.nt))
                 elif x < 0.72:
                     op = ("trigobj", rng.choice(list(objs)))
                 elif x < 0.84:
@@ -361,9 +366,19 @@ def run_history(res, exe, rng, first, sweep=None):
                 if op[1] < len(tps) and tps[op[1]].typ <= 240:
                     continue
                 script.append("trigger TPDO%d @%d" % (op[1], now))
+                nout = len(m.out)
                 if op[1] < len(tps):
                     m.send(tps[op[1]], now, "trigger")
+                refused = len(m.out) > nout and rng.random() < 0.15
+                if refused:
+                    # the CAN driver refuses this frame (transmit queue full): that one frame is lost, everything else - inhibit time,
+                    # event time, later triggers - goes on as if it had been sent
+                    sim.cmd("fault cansend 1")
+                    script[-1] += " (frame refused by the driver)"
+                    res.counters["tpdo_frames_refused_by_driver"] += 1
                 evs = sim.cmd("trigpdo %d" % op[1])
+                if refused:
+                    sim.cmd("fault cansend 0")
             elif op[0] == "trigcb":
                 # API call from inside COPdoTransmit: while the frame of an event-driven TPDO goes out the application triggers the same
                 # TPDO again - with an inhibit time that is one more transmission when the inhibit time ends, without one it follows at once
@@ -399,7 +414,7 @@ def run_history(res, exe, rng, first, sweep=None):
                         m.write_obj((i_, s_), int.from_bytes(data[pos:pos + b_ // 8], "little"), now)
                         pos += b_ // 8
                     res.counters["rpdo_writes_in_operational"] += 1
-                evs = sim.rx(0x200 + nid, data)
+                evs = sim.rx(cfg.rbase + nid, data)
             elif op[0] == "sync":
                 script.append("SYNC @%d" % now)
                 if m.mode == OP:
@@ -570,6 +585,7 @@ def run_known_witness(res, exe):
 def plan(tier, seed):
     q = tier == "quick"
     items = [("hist", i, 40 if q else 400) for i in range(48 if q else 300)]
+    items += [("hist6", i, 30 if q else 300) for i in range(12 if q else 80)]       # build with CO_TPDO_N=6 / CO_RPDO_N=2
     items += [("sweep", i, 0) for i in range(7)]
     items += [("witness", 0, 0)]
     return items
@@ -582,6 +598,11 @@ def work(item, ctx):
         for h in range(item[2]):
             rng = random.Random(F.seed_for(ctx["seed"], "C12", item[1], h))
             run_history(res, exe, rng, item[1] == 0 and h == 0)
+    elif item[0] == "hist6":
+        for h in range(item[2]):
+            rng = random.Random(F.seed_for(ctx["seed"], "C12six", item[1], h))
+            run_history(res, ctx["exes"]["asanp"], rng, False, nt=6, nr=2)
+            res.counters["histories_with_six_tpdo_channels"] += 1
     elif item[0] == "sweep":
         inh = item[1]
         for ev in range(0, 7):
@@ -611,6 +632,8 @@ def finish(total, tier):
     p = []
     if c["deferred"] < 50 or c["event"] < 200 or c["sync"] < 100:
         p.append("core mechanisms hardly exercised: %r" % dict(c))
+    if c["tpdo_frames_refused_by_driver"] < 100:
+        p.append("only %d TPDO frames refused by the driver" % c["tpdo_frames_refused_by_driver"])
     if c["remapped_with_fewer_objects"] < 100 or c["rpdo_switched_between_syncs"] < 100:
         p.append("too few re-mappings with fewer objects (%d) / RPDO switches between SYNCs (%d)" % (c["remapped_with_fewer_objects"], c["rpdo_switched_between_syncs"]))
     return p
